@@ -9,6 +9,7 @@ import (
 	"fmt"
 	"io"
 	"strconv"
+	"strings"
 	"time"
 
 	"github.com/scigolib/hdf5/internal/core"
@@ -54,7 +55,9 @@ func (a *c14Alloc) Allocate(size uint64) (uint64, error) {
 // ---- case format
 
 type c14Op struct {
-	Op string `json:"o"` // i(nsert) u(pdate) s(earch) h(as) d(elete) p(ersist: WriteToFile+Load) r(ewrite: WriteAt+Load)
+	// i(nsert) u(pdate) s(earch) h(as) d(elete) p(ersist: WriteToFile+Load) r(ewrite: WriteAt+Load)
+	// w(rite in place: WriteAt, the history continues on the SAME object) P(WriteToFile, same object)
+	Op string `json:"o"`
 	N  string `json:"n"` // name, hex
 	V  uint64 `json:"v"` // heap id (uint64; the index keeps the low 7 bytes)
 }
@@ -146,6 +149,79 @@ func c14Raw(f *c14File, addr uint64, sb *core.Superblock) map[string]interface{}
 	return map[string]interface{}{"nroot": nroot, "total": total, "root": root, "ids": hs}
 }
 
+// c14ErrClass names the reason LoadFromFile gave (stable words of the error texts).
+func c14ErrClass(err error) string {
+	m := err.Error()
+	part := "header"
+	if strings.Contains(m, "failed to read leaf node") {
+		part = "leaf"
+	}
+	for _, w := range []string{"checksum", "signature", "incomplete", "version", "type", "depth"} {
+		if strings.Contains(m, w) {
+			return part + "-" + w
+		}
+	}
+	return part + "-other"
+}
+
+func c14SameRecs(a, b []structures.LinkNameRecord) bool {
+	if len(a) != len(b) {
+		return false
+	}
+	for i := range a {
+		if a[i] != b[i] {
+			return false
+		}
+	}
+	return true
+}
+
+// c14Image reads the file image at header address addr with a FRESH object (LoadFromFile) and with the
+// minimal reader of internal/core, and compares both with the in-memory object bt:
+// img = "same" | "load_err:<class>" | "diff:<what>", raw = "same" | "err" | "diff".
+func c14Image(file *c14File, bt *structures.WritableBTreeV2, addr uint64, ns uint32, sb *core.Superblock) (img, raw, detail string) {
+	live := structures.VerifBT2State(bt)
+	nb := structures.NewWritableBTreeV2(ns)
+	if err := nb.LoadFromFile(file, addr, sb); err != nil {
+		img = "load_err:" + c14ErrClass(err)
+		detail = c14Err(err)
+	} else {
+		got := structures.VerifBT2State(nb)
+		switch {
+		case !c14SameRecs(got.Records, live.Records) || !c14SameRecs(got.LeafRecords, live.Records):
+			img = "diff:records"
+			detail = fmt.Sprintf("file %d records, memory %d", len(got.Records), len(live.Records))
+		case got.NumRecordsRoot != live.NumRecordsRoot || got.TotalRecords != live.TotalRecords:
+			img = "diff:counts"
+			detail = fmt.Sprintf("file %d/%d, memory %d/%d", got.NumRecordsRoot, got.TotalRecords, live.NumRecordsRoot, live.TotalRecords)
+		case got.NodeSize != live.NodeSize || got.HdrNodeSize != live.HdrNodeSize || got.Type != live.Type ||
+			got.RecordSize != live.RecordSize || got.Depth != live.Depth || got.Split != live.Split || got.Merge != live.Merge ||
+			got.LeafType != live.LeafType:
+			img = "diff:header"
+		default:
+			img = "same"
+		}
+	}
+	nroot, total, _, ids, err := core.VerifReadBTreeV2Raw(file, addr, sb)
+	switch {
+	case err != nil:
+		raw = "err"
+		if detail == "" {
+			detail = c14Err(err)
+		}
+	case int(nroot) != len(live.Records) || total != uint64(len(live.Records)) || len(ids) != len(live.Records):
+		raw = "diff"
+	default:
+		raw = "same"
+		for i := range ids {
+			if ids[i] != live.Records[i].HeapID {
+				raw = "diff"
+			}
+		}
+	}
+	return img, raw, detail
+}
+
 func c14Run(c *c14Case) (interface{}, error) {
 	if c.Osz == 0 {
 		c.Osz = 8
@@ -158,6 +234,10 @@ func c14Run(c *c14Case) (interface{}, error) {
 		return nil, err
 	}
 	res := make([]string, 0, len(c.Ops))
+	// per operation: the image check after a successful write ("" = no check at this operation)
+	imgs := make([]string, 0, len(c.Ops))
+	raws := make([]string, 0, len(c.Ops))
+	var imgDetail []string
 	var errs []string
 	note := func(i int, err error) {
 		if len(errs) < 8 {
@@ -185,6 +265,14 @@ func c14Run(c *c14Case) (interface{}, error) {
 		}
 		name := string(nb)
 		r := "ok"
+		img, raw := "", ""
+		check := func(addr uint64) {
+			var d string
+			img, raw, d = c14Image(file, t.bt, addr, c.NS, sb)
+			if d != "" && len(imgDetail) < 8 {
+				imgDetail = append(imgDetail, fmt.Sprintf("%d:%s", i, d))
+			}
+		}
 		switch o.Op {
 		case "i":
 			if err := t.bt.InsertRecord(name, o.V); err != nil {
@@ -221,6 +309,9 @@ func c14Run(c *c14Case) (interface{}, error) {
 				note(i, err)
 			} else if !reload(i, addr) {
 				r = "err"
+				check(addr) // the object that was written, against what it wrote
+			} else {
+				check(structures.VerifBT2State(t.bt).LoadedHeader)
 			}
 		case "r":
 			if err := t.bt.WriteAt(file, sb); err != nil {
@@ -228,14 +319,43 @@ func c14Run(c *c14Case) (interface{}, error) {
 				note(i, err)
 			} else if !reload(i, structures.VerifBT2State(t.bt).LoadedHeader) {
 				r = "err"
+				check(structures.VerifBT2State(t.bt).LoadedHeader)
+			} else {
+				check(structures.VerifBT2State(t.bt).LoadedHeader)
+			}
+		case "w":
+			// WriteAt in place; the SAME object stays in use (no reload): a handle can be written many times
+			if err := t.bt.WriteAt(file, sb); err != nil {
+				r = "err"
+				note(i, err)
+			} else {
+				check(structures.VerifBT2State(t.bt).LoadedHeader)
+			}
+		case "P":
+			// WriteToFile to fresh addresses; the SAME object stays in use
+			addr, err := t.bt.WriteToFile(file, alloc, sb)
+			if err != nil {
+				r = "err"
+				note(i, err)
+			} else {
+				check(addr)
 			}
 		default:
 			return nil, fmt.Errorf("unknown op %q", o.Op)
 		}
 		res = append(res, r)
+		imgs = append(imgs, img)
+		raws = append(raws, raw)
 	}
 	t.stop()
-	out := map[string]interface{}{"res": res, "errs": errs, "state": c14View(t.bt, sb), "next": alloc.next}
+	out := map[string]interface{}{"res": res, "errs": errs, "state": c14View(t.bt, sb), "next": alloc.next,
+		"img": imgs, "rawimg": raws, "img_detail": imgDetail}
+	// end of the history, object loaded: the image at the loaded header address as it is now (the driver
+	// requires "same" when nothing was modified since the last write) ...
+	if la := structures.VerifBT2State(t.bt).LoadedHeader; la != 0 {
+		ei, er, ed := c14Image(file, t.bt, la, c.NS, sb)
+		out["end_img"] = []string{ei, er, ed}
+	}
 	if len(file.data) <= 5000 {
 		out["file"] = hex.EncodeToString(file.data)
 	}
@@ -258,6 +378,16 @@ func c14Run(c *c14Case) (interface{}, error) {
 		out["final_loaded"] = c14View(nb, sb)
 	}
 	out["final_raw"] = c14Raw(ff, addr, sb)
+	// ... and after one more WriteAt of the object as it is now, on a copy of the file (always "same")
+	if la := structures.VerifBT2State(t.bt).LoadedHeader; la != 0 {
+		cf := &c14File{data: append([]byte(nil), file.data...)}
+		if err := t.bt.WriteAt(cf, sb); err != nil {
+			out["endw_img"] = []string{"write_err", "", c14Err(err)}
+		} else {
+			ei, er, ed := c14Image(cf, t.bt, la, c.NS, sb)
+			out["endw_img"] = []string{ei, er, ed}
+		}
+	}
 	return out, nil
 }
 
